@@ -60,7 +60,7 @@ INV_HARNESSES = [
     {'name': 'h_realinv', 'src': 'real/h_realinv.cpp', 'entry': 'h_realinv', 'repo_srcs': srcsets_real.REAL, 'covers': [1, 2, 3, 4], 'jobs': 16,
      'obligations': ['REAL AltBlockTree under histories mixing setState / invalidateSubtree / revalidateSubtree / removeSubtree / re-announcement of a removed block: after every call links, heights, failed-propagation and the tip set are consistent, the best chain runs only through valid blocks, exactly root..tip are ACTIVE and applied, the payload index describes exactly the payloads of the existing blocks, the VBK tree holds exactly the context of the active chain, removed blocks are in no view',
                      'invalidateSubtree marks the whole subtree and moves the tip out of it; revalidateSubtree of the block that carries the mark clears it; setState refuses exactly the failed blocks'],
-     'rungs': {'quick': [{'defines': ['NOPS=2'], 'bound': 'ALT tree 1-2-{3,4}, 5 on 1; VBK context in blocks 2 and 3, optional ATV in 4; any first tip; every sequence of 2 operations (5 kinds x 4 targets)', 'timeout': 300}],
+     'rungs': {'quick': [{'defines': ['NOPS=2'], 'bound': 'ALT tree 1-2-{3,4}, 5 on 1; VBK context in blocks 2, 3 and 4 (3 and 4 carry the same VBK block: one payload id, two containing blocks), optional ATV in 4; any first tip; every sequence of 2 operations (5 kinds x 4 targets)', 'timeout': 300}],
                'thorough': [{'defines': ['NOPS=3'], 'bound': 'every sequence of 3 operations', 'timeout': 1500}]}},
 ]
 PAYOUT_HARNESSES = [
